@@ -3,7 +3,7 @@
 import json, os
 ROOT = os.path.dirname(os.path.dirname(os.path.abspath(__file__)))
 TECH = "bounded symbolic execution of the real Python code (CrossHair state space) with z3 deciding every branch and every property condition per path; counterexamples replayed natively"
-NOTE_COMMON = ("Trusted: CrossHair 0.0.110's models of Python int/bytes/str, z3 5.1, the adaptations E1-E10 and models B1-B7/M1 of "
+NOTE_COMMON = ("Trusted: CrossHair 0.0.110's models of Python int/bytes/str, z3 5.1, the adaptations E1-E11 and models B1-B7/M1 of "
                "DESIGN.md section 0.2 (validated against the builtins at setup). Bounded: see coverage.bounds / outside_claim in the evidence; "
                "partitions that do not exhaust within their budget are listed as incomplete and claim nothing.")
 CHECKS = {
